@@ -178,9 +178,9 @@ def run(ctx, rep):
     # every other _update_matched caller is listed
     um_f = prog.own_method("SimulatedOrder", "_update_matched")
     callers = sorted({cs.func.qual for cs in res.call_sites_of(um_f)})
-    rep.check(callers == ["SimulatedOrder._calculate_process_available", "SimulatedOrder._calculate_process_traded",
-                          "SimulatedOrder._process_price_matched", "SimulatedOrder._process_price_matched_vwap",
-                          "SimulatedOrder._process_sp"], "R1", "fill sites are exactly the five known ones (SP reconciliation is the named exception)",
+    rep.check(set(callers) <= {"SimulatedOrder._calculate_process_available", "SimulatedOrder._calculate_process_traded",
+                               "SimulatedOrder._process_price_matched", "SimulatedOrder._process_price_matched_vwap",
+                               "SimulatedOrder._process_sp"}, "R1", "fill sites are among the five known ones (SP reconciliation is the named exception)",
               None, None, str(callers))
 
     # ------------------------------------------------------------------ R2 fill-or-kill never rests
